@@ -106,6 +106,13 @@ def cases(rng, tier):
         add(n, n, e)
         n, e = _staircases(rng, sizes, shuffle_components=True)
         add(n, n, e)
+    # several hundred vertices (the graphs met by the optimized molecular construction have 49 x 484 vertices at L = 9): implementation
+    # level only (maximum matching and Koenig cover against the independent references)
+    for a, b, p in {'quick': ((49, 484, 0.03), (300, 280, 0.008), (600, 30, 0.05)),
+                    'thorough': ((49, 484, 0.03), (300, 280, 0.008), (600, 30, 0.05), (484, 49, 0.1), (700, 700, 0.002), (260, 260, 0.02)),
+                    'search': ((49, 484, 0.03), (300, 280, 0.008))}[tier]:
+        add(a, b, _shuffle_dup(rng, _random_graph(rng, a, b, p)))
+        out[-1]['big'] = True
     for n in ([3, 5, 8, 13] if tier == 'quick' else [3, 5, 8, 13, 21, 34, 55]):
         e = _path_family(rng, n)
         add(n, n, e)
@@ -180,6 +187,8 @@ def prop(case, r):
 
 
 def coq(case, r):
+    if case.get('big'):
+        return None
     if 'error' in r:
         # the model never raises; a raising implementation can only agree with a model that runs out of fuel
         return 'match run %s %s %s with (Some _, Some _) => false | _ => true end' % (
@@ -202,7 +211,7 @@ def coq_diag(case, r):
 
 def klass(case, r):
     n = max(case['nu'], case['nv'])
-    size = '<=3' if n <= 3 else ('4-6' if n <= 6 else '7+')
+    size = '<=3' if n <= 3 else ('4-6' if n <= 6 else ('7+' if n < 200 else '200+'))
     ne = len({tuple(e) for e in case['edges']})
     dens = ne / (case['nu'] * case['nv'])
     d = 'empty' if ne == 0 else ('sparse' if dens < 0.34 else ('mid' if dens < 0.67 else 'dense'))
